@@ -112,6 +112,28 @@ def programs(tier):
             continue
         for v in (["B+1", "(B*2)"] if quick else ["B+1", "(B*2)", "128+16*C", "(N+1)", "B-1", "B/2", "2^B"]):
             progs.append(("expression-operand-probe", "10 " + t.replace("#", v)))
+    # a runtime helper whose argument is directly another helper call, inside a larger expression, a PRINT, an IF and as a whole
+    # right-hand side: each call needs a result cell of its own (ecb_string / ecb_instr clear their result before they read)
+    for inner in ["STRING$(2,\"X\")", "STR$(5)", "HEX$(10)", "INKEY$"]:
+        for shape in ["10 A$=STRING$(3,{i})+\"Y\"", "10 PRINT STRING$(3,{i})", "10 IF STRING$(2,{i})=\"XX\" THEN 10", "10 A$=STRING$(3,{i})",
+                      "10 B$=\"Q\":A$=B$+STRING$(2,{i})"]:
+            progs.append(("helper-nest-probe", shape.replace("{i}", inner)))
+    for inner in ["INSTR(1,A$,\"B\")", "INT(N)", "VAL(B$)"]:
+        for shape in ["10 P=INSTR({i},A$,\"C\")+1", "10 PRINT INSTR({i},A$,\"C\")", "10 IF INSTR({i},A$,\"C\")>0 THEN 10", "10 P=INSTR({i},A$,\"C\")",
+                      "10 Q=2*INSTR({i},A$,C$)-1"]:
+            progs.append(("helper-nest-probe", shape.replace("{i}", inner)))
+    # legal Extended BASIC spellings the tool refuses today: if one becomes accepted, what is emitted for it is judged like the rest
+    for p in ["10 P=INSTR(A$,B$)", "10 IF INSTR(N$,\",\")>0 THEN 10", "10 PRINT INSTR(A$,\"X\")+1", "10 A$=STRING$(3,65)", "10 A$=MID$(B$,2)",
+              "10 PRINT USING \"##\";A", "10 A=RND(0)", "10 LINE(0,0)-(1,1),PSET", "10 A$=INKEY$+INKEY$", "10 EXEC 44539", "10 PRINT MEM"]:
+        progs.append(("helper-nest-probe", p))
+    # FOR / NEXT: a NEXT list that closes the inner loops, then a bare NEXT for the enclosing one (and deeper nests)
+    for p in ["10 FOR A=1 TO 2\n20 FOR I=1 TO 2:FOR J=1 TO 2\n30 PRINT A;I;J\n40 NEXT J,I\n50 NEXT",
+              "10 FOR A=1 TO 2:FOR I=1 TO 2:FOR J=1 TO 2:PRINT A;I;J:NEXT J,I:NEXT", "10 FOR A=1 TO 2:FOR B=1 TO 2\n20 FOR I=1 TO 2:FOR J=1 TO 2\n30 NEXT J,I\n40 NEXT:NEXT",
+              "10 FOR A=1 TO 2\n20 FOR I=1 TO 2\n30 NEXT I\n40 NEXT", "10 FOR A=1 TO 2:FOR I=1 TO 2:FOR J=1 TO 2:NEXT:NEXT J:NEXT",
+              "10 FOR A=1 TO 2:FOR I=1 TO 2:FOR J=1 TO 2:NEXT J,I,A", "10 FOR A=1 TO 2\n20 FOR I=1 TO 2:FOR J=1 TO 2:NEXT J,I\n30 FOR K=1 TO 2:NEXT\n40 NEXT"]:
+        progs.append(("next-probe", p))
+    for p in ["10 P=INSTR(P,A$,B$)", "10 P=INSTR(P+1,A$,B$)", "10 A$=STRING$(3,A$)", "10 A$=STRING$(N,B$)", "10 P=1:A$=\"XYX\":P=INSTR(P,A$,\"Y\")"]:
+        progs.append(("helper-nest-probe", p))
     # nested conditionals with convertible functions in the inner condition / body
     for c in ["INKEY$=\"X\"", "BUTTON(0)=1", "INT(B)=2", "JOYSTK(0)>31", "POINT(1,2)=3", "VAL(B$)=1"]:
         progs.append(("nested-if-probe", f"10 IF A=1 THEN IF {c} THEN PRINT \"Y\"\n20 END"))
